@@ -66,6 +66,12 @@ def extract(j):
     return om, gm
 
 
+# marking-definition ids whose UUID is version 1 / 3 / 5: legal identifiers in 2.1, not in 2.0 (which demands version 4). The pool is
+# shared by the 2.0 and 2.1 subjects of a run, so whatever the library remembers about an identifier it has seen is met again
+ODD_MARKING_IDS = ['marking-definition--a8fe6488-b87f-55ae-ae9e-2d2764db2977', 'marking-definition--e4d7b2f0-5d2a-11e9-8647-d663bd873d93',
+                   'marking-definition--6fa459ea-ee8a-3ca4-894e-db77e160355e']
+
+
 def model_get(om, gm, sels, inh, desc, use_ref=True, use_lang=True):
     out = set()
     for (s, k, v) in gm:
@@ -82,7 +88,7 @@ class C07(Profile):
     tiers = {'quick': 5000, 'thorough': 400000}
     wall_cap = {'quick': 900, 'thorough': 5 * 3600}
     probes = ['prefix_sibling_queried_inherited', 'prefix_sibling_queried_descendants', 'object_and_granular_both_present',
-              'lang_marking', 'list_index_selector', 'deep_selector_on_dict', 'marking_not_found_legit', 'noop_same_object',
+              'lang_marking', 'non_v4_marking_id', 'list_index_selector', 'deep_selector_on_dict', 'marking_not_found_legit', 'noop_same_object',
               'metamorphic_idempotent', 'metamorphic_commute', 'metamorphic_set_eq_clear_add', 'remove_restores',
               'marking_definition_subject', 'marking_passed_as_object', 'inherited_from_object_level', 'switch_excludes_kind']
     rule = ('plans: 1-3 subjects (2.0/2.1 SDO/SRO as object or dict, marking definitions, optional x_ prefix-sibling properties) and 10-40 '
@@ -130,6 +136,8 @@ class C07(Profile):
                   'single': rng.random() < 0.5, 'as_obj': rng.random() < 0.15,
                   'inh': rng.random() < 0.5, 'desc': rng.random() < 0.5,
                   'use_ref': rng.random() < 0.85, 'use_lang': rng.random() < 0.85}
+            if kind in ('add', 'set') and rng.random() < 0.1:
+                op['odd_mark'] = rng.randrange(1, 100)       # a marking id whose UUID is RFC 4122 but not version 4
             if kind == 'is_marked' and rng.random() < 0.2:
                 op['marks'] = []
             if kind == 'meta':
@@ -251,6 +259,12 @@ class C07(Profile):
         marks = self.pick_marks(dict(op, marks=op.get('marks') or [0]), om, gm, ver, is_obj)
         if not granular:
             marks = [m for m in marks if kind_of(m) == 'ref'] or [C.MARKING_IDS[(op.get('marks') or [0])[0] % len(C.MARKING_IDS)]]
+        self.odd_refusal = False
+        if op.get('odd_mark') and kind in ('add', 'set'):
+            marks = marks[:-1] + [ODD_MARKING_IDS[op['odd_mark'] % len(ODD_MARKING_IDS)]]
+            world.probe('non_v4_marking_id')
+            # a 2.0 OBJECT validates its references as 2.0 identifiers: the request has to be refused (dicts are not validated)
+            self.odd_refusal = is_obj and ver == '2.0'
         if om and gm:
             world.probe('object_and_granular_both_present')
         if any(kind_of(m) == 'lang' for m in marks):
@@ -354,6 +368,13 @@ class C07(Profile):
         world.state(ver, form, kind, gtag, out.tag.split(':')[0] if out.ok else type(out.exc).__name__,
                     bool(om), bool(gm), bool(kw))
         world.log(op=kind, g=gtag, sels=sels, marks=marks, outcome=out.tag)
+        if self.odd_refusal:
+            if out.ok:
+                raise Violation('valid-result', 'C07.result-not-valid/2.0-object-with-non-v4-marking-id/%s/%s' % (kind, gtag),
+                                dict(marks=marks, sels=sels, result=U.to_json(out.value)))
+            if isinstance(out.exc, (self.stix2.exceptions.STIXError, ValueError)):
+                world.stat('refused_non_v4_marking_on_2.0')
+                return
         if not out.ok:
             name = type(out.exc).__name__
             E = self.stix2.exceptions
